@@ -852,6 +852,18 @@ func (p *Prog) codeRegexPattern(varName string) (string, error) {
 	return "", fmt.Errorf("regexp variable %s not found in the repository", varName)
 }
 
+// registerSpecRegex registers an engine-generated language given by a pattern.
+func (p *Prog) registerSpecRegex(name, pattern string) {
+	p.rxMu.Lock()
+	defer p.rxMu.Unlock()
+	if _, ok := p.spec.Langs[name]; ok {
+		return
+	}
+	e, _ := parser.ParseExpr("regex(" + strconv.Quote(pattern) + ")")
+	p.spec.Langs[name] = &LangDef{Name: name, Text: pattern, Expr: e}
+	p.spec.LangOrder = append(p.spec.LangOrder, name)
+}
+
 func numSubexp(pattern string) (int, error) {
 	re, err := syntax.Parse(pattern, syntax.Perl)
 	if err != nil {
